@@ -267,7 +267,33 @@ def execute(case, ctx=None):
     return fails, canon(conv), conv
 
 
+def check_relatives(case):
+    """Shallow copies share their state: after one of the two objects executed the operation, BOTH answer every query as a
+    converter freshly built from their own current records does (deep copies and pickles are covered by the joint universe)."""
+    import copy as _copy
+
+    fails = []
+    init = [rec_from_json(j) for j in case["init"]]
+    op = case["ops"][-1]
+    for who in ("original", "copy"):
+        base = build(init)
+        observe(base, Q_LIGHT, QUERY_PREFIXES)
+        sh = _copy.copy(base)
+        apply_op(base if who == "original" else sh, op)
+        for name, obj in (("original", base), ("shallow copy", sh)):
+            try:
+                fresh = Converter(copy.deepcopy(obj.records))
+            except Exception as e:  # noqa
+                fails.append(("C05/uniqueness-lost", f"{op['via']}({op['rec']}) on the {who}: rebuilding the {name} from its records raises {type(e).__name__}"))
+                continue
+            if observe(fresh, Q, QUERY_PREFIXES) != observe(obj, Q, QUERY_PREFIXES) or views(fresh) != views(obj):
+                fails.append(("C05/answers-differ-from-fresh-converter/relative", f"init {case['init']}: after {op['via']}({op['rec']}, cs={op['cs']}, merge={op['merge']}) was executed on the {who}, the {name} answers differently from a converter freshly built from its own records"))
+    return fails
+
+
 def replay(case):
+    if case.get("relatives"):
+        return check_relatives(case)
     if "tla_edge" in case:
         import sys
 
@@ -297,6 +323,10 @@ def run_unit(unit, ctx):
             case = {"init": hist["init"], "ops": hist["ops"] + [op]}
             if hist.get("via"):
                 case["via"] = hist["via"]
+            if not hist["ops"] and not hist.get("via"):
+                ctx.count("relative_checks")
+                for sig, msg in check_relatives(case)[:1]:
+                    ctx.violation(sig, msg, dict(case, relatives=True))
             fails, cn, conv = execute(case, ctx)
             if fails:
                 for sig, msg in fails[:2]:
